@@ -145,6 +145,8 @@ func c05(c *Ctx) {
 	r.Rule("R5.2", "every method and exported function of the reader packages whose name is not a consuming operation, every member of the lazy reifier table and the \"unixfs\" reifier itself cannot reach a block-load site in the closed-world call graph")
 	r.Rule("R5.3", "in the lookup path, each call of a loader lies outside every CFG cycle and the link it loads derives from the bucket chosen by hashBits.Next")
 	r.Rule("R5.4", "in the stream builder every load-reaching call other than the size query is dominated by the not-skipped edge of the comparison of the read position with the child's end; the size query has a load-free success path via Tsize and one via BlockSizes")
+	r.Rule("R5.6", "positioning never consumes content: no Seek method of the file readers can reach a Read method (or an io.Copy/ReadAll/ReadFull drain) in the closed-world call graph — a seek may query sizes but must not read through chunks")
+	r.Rule("R5.7", "single descent: the name-lookup operations and the shard loaders cannot reach a walker (a function that issues loads inside a loop); a lookup loads one shard per level and never a subtree")
 	r.Rule("R5.5", "KnownReifiers[\"unixfs\"] is a function that dispatches through a table all of whose members are load-free, distinct from the table used by \"unixfs-preload\"")
 
 	fetch := c.G.Fetchers(core.ReaderPkgs)
@@ -216,7 +218,9 @@ func c05(c *Ctx) {
 		}
 		isAPI := false
 		if fn.Signature.Recv() != nil {
-			isAPI = true // any method can be reached through an interface
+			// methods with an exported name can be reached through an interface; unexported helper methods are
+			// only reachable from the functions that call them, which are classified themselves
+			isAPI = token.IsExported(fn.Name())
 		} else if fn.Object() != nil && fn.Object().Exported() {
 			isAPI = true
 		}
@@ -249,7 +253,7 @@ func c05(c *Ctx) {
 			r.OK("R5.2", key, c.P.Pos(fn.Pos()), "no path to a block-load site")
 		}
 	}
-	r.Floor("R5.2", n52, 90)
+	r.Floor("R5.2", n52, 80)
 	// named must-haves (by role)
 	for _, must := range []struct{ rel, name string }{{"file", "NewUnixFSFile"}, {"hamt", "NewUnixFSHAMTShard"}, {"hamt", "AttemptHAMTShardFromNode"}} {
 		if f := c.P.FindFunc(must.rel, must.name); f == nil {
@@ -288,6 +292,8 @@ func c05(c *Ctx) {
 	}
 	r.Floor("R5.3", n53, 1)
 
+	c.checkSeekNeverReads()
+	c.checkSingleDescent(fetch)
 	c.checkSkipBeforeOpen(reach, fetch)
 
 	// ---- R5.5
@@ -625,4 +631,100 @@ func (c *Ctx) checkSizeQuery(q *ssa.Function, reach map[*ssa.Function]bool) {
 		bad = append(bad, "no load-free success path through the node's BlockSizes (dag-pb children would be opened to learn their size)")
 	}
 	c.R.Check(len(bad) == 0, "R5.4", key, pos, fmt.Sprintf("%d paths: load-free size answers exist via Tsize and via BlockSizes; opening the child is only the fallback", npaths), strings.Join(bad, "; "))
+}
+
+// checkSeekNeverReads implements R5.6.
+func (c *Ctx) checkSeekNeverReads() {
+	r := c.R
+	n := 0
+	for _, fn := range c.G.Funcs() {
+		rel, ok := c.P.PkgOf(fn)
+		if !ok || rel != "file" || fn.Synthetic != "" || !seekSig(fn) {
+			continue
+		}
+		n++
+		key := core.FuncName(fn) + "/seek-never-reads"
+		// BFS over G; a hit is a repository Read method or a call of an io drain helper
+		seen := map[*ssa.Function]bool{fn: true}
+		pred := map[*ssa.Function]*ssa.Function{}
+		queue := []*ssa.Function{fn}
+		var hit *ssa.Function
+		what := ""
+		for len(queue) > 0 && hit == nil {
+			f := queue[0]
+			queue = queue[1:]
+			if f != fn && readSig(f) {
+				hit, what = f, "reaches "+core.FuncName(f)
+				break
+			}
+			for _, ci := range core.CallsIn(f) {
+				for _, nm := range []string{"Copy", "CopyN", "CopyBuffer", "ReadAll", "ReadFull", "ReadAtLeast"} {
+					if core.IsCallTo(ci, "io", nm) {
+						hit, what = f, "calls io."+nm+" in "+core.FuncName(f)
+					}
+				}
+			}
+			if hit != nil {
+				break
+			}
+			for _, e := range c.G.Out[f] {
+				if !seen[e.Callee] {
+					seen[e.Callee] = true
+					pred[e.Callee] = f
+					queue = append(queue, e.Callee)
+				}
+			}
+		}
+		if hit == nil {
+			r.OK("R5.6", key, c.P.Pos(fn.Pos()), fmt.Sprintf("%d reachable functions: none reads content", len(seen)))
+			continue
+		}
+		var path []*ssa.Function
+		for f := hit; f != nil; f = pred[f] {
+			path = append([]*ssa.Function{f}, path...)
+			if f == fn {
+				break
+			}
+		}
+		r.Violate("R5.6", key, c.P.Pos(fn.Pos()), "a seek consumes content ("+what+"): "+core.PathString(path)+" — blocks outside the requested range are fetched")
+	}
+	r.Floor("R5.6", n, 3)
+}
+
+// checkSingleDescent implements R5.7.
+func (c *Ctx) checkSingleDescent(fetch map[*ssa.Function]bool) {
+	r := c.R
+	loaders := c.G.Loaders(map[string]bool{"hamt": true})
+	// walkers: functions of package hamt in which a loader is called inside a CFG cycle, or that recurse around a loader call
+	walkers := map[*ssa.Function]bool{}
+	for _, fn := range c.G.Funcs() {
+		rel, ok := c.P.PkgOf(fn)
+		if !ok || rel != "hamt" {
+			continue
+		}
+		for _, ci := range core.CallsIn(fn) {
+			if loaders[ci.Common().StaticCallee()] && core.InCycle(ci.Block()) {
+				walkers[fn] = true
+			}
+		}
+	}
+	n := 0
+	for _, fn := range c.G.Funcs() {
+		rel, ok := c.P.PkgOf(fn)
+		if !ok || rel != "hamt" || fn.Synthetic != "" {
+			continue
+		}
+		isLookup := strings.HasPrefix(strings.ToLower(fn.Name()), "lookup") && fn.Name() != "LookupByIndex"
+		if !isLookup && !loaders[fn] {
+			continue
+		}
+		n++
+		key := core.FuncName(fn) + "/single-descent"
+		path := c.G.PathTo(fn, walkers)
+		if walkers[fn] {
+			path = []*ssa.Function{fn}
+		}
+		r.Check(path == nil, "R5.7", key, c.P.Pos(fn.Pos()), "cannot reach a function that loads shards in a loop", "a lookup/loader can reach a subtree walk: "+core.PathString(path)+" — looking up one name would fetch a whole subtree")
+	}
+	r.Floor("R5.7", n, 5)
 }
